@@ -19,7 +19,7 @@ dropped = sorted(c for c, v in el.items() if v[0] and c in nonmono)
 pairs = {}
 for r in recs:
     c = r["case"]
-    if c.get("scenario") == "single" and c["kind"] in bnd.INTCODED and not r.get("skip"):
+    if c.get("scenario") in ("single", "repro") and c["kind"] in bnd.INTCODED and not r.get("skip"):
         pairs.setdefault((c["opt"], c["kind"]), []).append(bool(r.get("exc")))
 failing = sorted([list(k) for k, v in pairs.items() if all(v)])
 known_exc = sorted({(r["case"]["opt"], r["exc"]["type"]) for r in recs if r.get("exc") and r["case"]["kind"] in bnd.CONT})
